@@ -133,8 +133,21 @@ def run(ctx):
             # references inside shared helpers are judged only when the helper is not shared (it names one functional)
             judged = own_refs or refs
             bad = [n for n in judged if n.attr != functional]
+            shared = not own_refs and len({n.attr for n in refs}) > 1
             if not judged:
                 res.unknown("D-DELEG", f, functional, "functional", "no reference to a networkx centrality found", loc(v.fi, v.fi.node))
+            elif shared:
+                # one helper dispatches between several functionals: the selector this function hands over decides
+                keys = {n.attr: n.attr.split("_")[0] for n in refs}  # betweenness_centrality -> "betweenness"
+                consts = {c.value for c in ast.walk(v.fi.node) if isinstance(c, ast.Constant) and isinstance(c.value, str)} - {ast.get_docstring(v.fi.node) or ""}
+                mine = keys.get(functional)
+                others = {k for a_, k in keys.items() if a_ != functional}
+                if mine in consts and not (others & consts):
+                    res.ok("D-DELEG", f, f'"{mine}"', "functional", loc(v.fi, v.fi.node))
+                elif (others & consts) and mine not in consts:
+                    res.violation("D-DELEG", f, f'"{sorted(others & consts)[0]}"', "functional", f"{name} does not delegate to networkx.{functional}", loc(v.fi, v.fi.node))
+                else:
+                    res.unknown("D-DELEG", f, functional, "functional", "the centrality is chosen inside a shared helper; which one this function selects was not recognised", loc(v.fi, v.fi.node))
             else:
                 res.check(not bad, "D-DELEG", f, norm((bad or judged)[0]), "functional", f"{name} does not delegate to networkx.{functional}", loc(v.fi, v.fi.node))
             if takes_s:
